@@ -192,6 +192,64 @@ fn g_deep(src: &mut Src, obs: &mut Obs) -> CaseResult {
     Ok(())
 }
 
+/// "length fields that lie": for a valid message, every container / string head in turn claims
+/// a huge length or element count (2^16-1, 2^32-1) while the data that follows is unchanged or
+/// cut right after the head. Decoding must return promptly with a status, whatever the claim.
+fn g_lie(src: &mut Src, obs: &mut Obs) -> CaseResult {
+    let cmd = PARAM_CMDS[src.below(PARAM_CMDS.len())];
+    let mut info = Info::default();
+    let model = refcbor::canonicalize(&gen_for(cmd, src, &mut info));
+    let heads = refcbor::heads(&model);
+    obs.label("length-lie");
+    obs.label(cmd_name(cmd));
+    for (idx, (major, n)) in heads.iter().enumerate() {
+        if !(2..=5).contains(major) {
+            continue;
+        }
+        for arg in [0xFFFFu64, 0xFFFF_FFFF, 0x7FFF_FFFF, (*n + 1000).min(0xFFFF_FFFE)] {
+            let (body, applied) = refcbor::encode_fault(&model, refcbor::HeadFault::Lie { idx, arg });
+            if !applied {
+                continue;
+            }
+            for cut in [false, true] {
+                let mut msg = vec![cmd];
+                msg.extend_from_slice(&body);
+                if cut {
+                    // keep only up to and including the lying head
+                    let prefix = refcbor::encode_fault(&model, refcbor::HeadFault::None).0;
+                    let _ = prefix;
+                    let keep = head_end_offset(&model, idx);
+                    msg.truncate(1 + keep);
+                }
+                msg.truncate(MAX_MSG);
+                obs.sub(&format!("lie:major{}", major), &[&msg]);
+                let st = check_input(&msg, obs)?;
+                if st.is_none() && cut {
+                    // a message cut right after a head that announces more data cannot be complete
+                    return Err(Fail::new(
+                        format!("C04:truncated-after-lying-head-accepted:major{}", major),
+                        format!("{} message cut after a head announcing {} items/bytes was accepted", cmd_name(cmd), arg),
+                        json!({"input_hex": hex(&msg)}),
+                    )
+                    .with_concrete("c04_concrete", msg.clone()));
+                }
+            }
+        }
+    }
+    Ok(())
+}
+
+/// byte offset just after the head with pre-order index `idx` in the shortest-form encoding
+fn head_end_offset(v: &Value, idx: usize) -> usize {
+    // encode with the head made indefinite is not suitable; instead encode a marker: re-encode with
+    // a lie that changes nothing but lets us find the position by diffing against a 1-larger lie
+    let a = refcbor::encode_fault(v, refcbor::HeadFault::Lie { idx, arg: 0xFFFF_FFFF }).0;
+    let b = refcbor::encode_fault(v, refcbor::HeadFault::Lie { idx, arg: 0xFFFF_FFFE }).0;
+    let first_diff = a.iter().zip(b.iter()).position(|(x, y)| x != y).unwrap_or(a.len().min(b.len()));
+    // the two encodings differ in the last byte of the 5-byte head
+    first_diff + 1
+}
+
 /// stand-alone public types through cbor_deserialize::<T> on mutated encodings
 fn g_types(src: &mut Src, obs: &mut Obs) -> CaseResult {
     let t = types::ALL[src.below(types::ALL.len())];
@@ -237,14 +295,15 @@ fn g_concrete(src: &mut Src, obs: &mut Obs) -> CaseResult {
 pub const G_SHORT: Gen = Gen { name: "c04_short", f: g_short };
 pub const G_MUTATE: Gen = Gen { name: "c04_mutate", f: g_mutate };
 pub const G_DEEP: Gen = Gen { name: "c04_deep", f: g_deep };
+pub const G_LIE: Gen = Gen { name: "c04_lie", f: g_lie };
 pub const G_TYPES: Gen = Gen { name: "c04_types", f: g_types };
 pub const G_CONCRETE: Gen = Gen { name: "c04_concrete", f: g_concrete };
 
 pub fn gens() -> Vec<Gen> {
-    vec![G_SHORT, G_MUTATE, G_DEEP, G_TYPES, G_CONCRETE]
+    vec![G_SHORT, G_MUTATE, G_DEEP, G_LIE, G_TYPES, G_CONCRETE]
 }
 
-pub const RULE: &str = "(a) exhaustive: every byte string of length 0..3 (16 843 009 inputs) and, in the thorough tier, every 4-byte input whose first byte is a parameter-bearing command (quick: a 2^21 stride sample of them); (b) proptest: a valid message for a random command from the C01 generator, then 1-3 mutations from {grow a string/list/map across capacity boundaries up to the 7609-byte budget, push an integer past its range (255..2^64-1, negative), replace a node by another type, wrap a node in up to 7500 nesting levels, duplicate/drop a map entry, corrupt UTF-8, insert an unknown member with deep nesting, re-encode a head non-minimally or indefinite, byte flip/insert/delete/splice/truncate/special byte}; (c) nesting depth ladders up to 7590 levels inside an unknown option, truncated at 7609 bytes; (d) mutated encodings of every stand-alone decodable public type through cbor_deserialize::<T>. Oracle: the call returns (a panic is caught and is a violation; an abort/stack overflow kills the worker and is reproduced in journal mode), an error status is one of 0x01/0x12/0x14, and decoding the same bytes at another address/alignment gives an equal result. Built with debug assertions and overflow checks; decoding runs on an 8 MiB stack. Non-trivial: first byte is a parameter-bearing command and the payload starts with a map header followed by at least one byte; distinct by input bytes.";
+pub const RULE: &str = "(a) exhaustive: every byte string of length 0..3 (16 843 009 inputs) and, in the thorough tier, every 4-byte input whose first byte is a parameter-bearing command (quick: a 2^21 stride sample of them); (b) proptest: a valid message for a random command from the C01 generator, then 1-3 mutations from {grow a string/list/map across capacity boundaries up to the 7609-byte budget, push an integer past its range (255..2^64-1, negative), replace a node by another type, wrap a node in up to 7500 nesting levels, duplicate/drop a map entry, corrupt UTF-8, insert an unknown member with deep nesting, re-encode a head non-minimally or indefinite, byte flip/insert/delete/splice/truncate/special byte}; (c') every container/string head of a valid message in turn announcing 2^16-1 / 2^31-1 / 2^32-1 / n+1000 items while the data is unchanged or cut right after the head; (c) nesting depth ladders up to 7590 levels inside an unknown option, truncated at 7609 bytes; (d) mutated encodings of every stand-alone decodable public type through cbor_deserialize::<T>. Oracle: the call returns (a panic is caught and is a violation; an abort/stack overflow kills the worker and is reproduced in journal mode), an error status is one of 0x01/0x12/0x14, and decoding the same bytes at another address/alignment gives an equal result. Built with debug assertions and overflow checks; decoding runs on an 8 MiB stack. Non-trivial: first byte is a parameter-bearing command and the payload starts with a map header followed by at least one byte; distinct by input bytes.";
 pub const ASSUMPTIONS: &[&str] = &[
     "non-termination is only observable as a watchdog hit (reported as inconclusive, exit 2)",
     "stack exhaustion is judged against an 8 MiB stack",
@@ -277,6 +336,14 @@ pub fn run(ctx: &mut Ctx) {
     }
     ctx.random(&G_MUTATE, &[], ctx.t(120_000, 6_000_000), 1400);
     ctx.random(&G_DEEP, &[], ctx.t(3_000, 60_000), 700);
+    for (ci, _) in PARAM_CMDS.iter().enumerate() {
+        let nbits = top_bits(PARAM_CMDS[ci]) + nested_bits(PARAM_CMDS[ci]);
+        // the full message (every member present) and free messages
+        let mut full = vec![idx(ci, PARAM_CMDS.len())];
+        full.extend(std::iter::repeat(crate::run::bit(true)).take(nbits));
+        ctx.random(&G_LIE, &full, ctx.t(6, 200), 900);
+        ctx.random(&G_LIE, &[idx(ci, PARAM_CMDS.len())], ctx.t(30, 2_000), 900);
+    }
     for (i, t) in types::ALL.iter().enumerate() {
         if t.available() && t.decodable() {
             ctx.random(&G_TYPES, &[idx(i, types::ALL.len())], ctx.t(1_500, 60_000), 700);
@@ -286,7 +353,7 @@ pub fn run(ctx: &mut Ctx) {
         "short:len0", "short:len1", "short:len2", "short:len3", "short:len4", "outcome:accepted", "outcome:0x01",
         "outcome:0x12", "outcome:0x14", "mut:grow-bytes", "mut:grow-text", "mut:grow-array", "mut:int-range",
         "mut:type-replace", "mut:nest:>64", "mut:dup-entry", "mut:corrupt-utf8", "mut:unknown-deep:>64", "mut:head:Wider",
-        "mut:head:Indefinite", "mut:byte:flip", "mut:byte:insert", "mut:byte:delete", "mut:byte:splice", "mut:byte:truncate",
-        "deep:>64", "deep:>=7000", "deep:truncated-at-7609", "len>1024",
+        "mut:head:Indefinite", "mut:head:Lie", "mut:byte:flip", "mut:byte:insert", "mut:byte:delete", "mut:byte:splice", "mut:byte:truncate",
+        "length-lie", "lie:major2", "lie:major3", "lie:major4", "lie:major5", "deep:>64", "deep:>=7000", "deep:truncated-at-7609", "len>1024",
     ]);
 }
